@@ -10,10 +10,16 @@ def register(add):
     register_mul(add)
     for conf, tier in (('w8', 'quick'),):
         register_conf(add, conf, tier)
+    register_conf(add, 'base', 'thorough', only_none=True)
 
 
-def register_conf(add0, CONF, TIER):
+def register_conf(add0, CONF, TIER, only_none=False):
     N = NB[CONF]
+    global L3, L2
+    L3s, L2s = L3, L2
+    if only_none:
+        L3 = [x for x in L3 if x[0] == 'none']
+        L2 = [x for x in L2 if x[0] == 'none']
 
     def add(name, *a, **k):
         k.setdefault('tier', TIER)
